@@ -14,8 +14,8 @@ RULE = ("case = generated hierarchy (depth <= 3, component lists) whose child cl
         "operations on fields and list elements at depth 1..2, incl. re-replacing a position; after EVERY operation "
         "the mutated design is compared with a design built from scratch; non-trivial = >=2 operations, >=1 on a list "
         "element or at depth 2, and the replaced classes have >=3 update blocks in total; distinct = case digest")
-TIERS = {"quick": {"runs": 320, "budget_s": 110, "chunk": 4},
-         "thorough": {"runs": 30000, "budget_s": 1800, "chunk": 8}}
+TIERS = {"quick": {"runs": 480, "budget_s": 110, "chunk": 4},
+         "thorough": {"runs": 60000, "budget_s": 1800, "chunk": 8}}
 REAL = ["Component.replace_component / replace_component_with_obj", "_delete_component / _add_component",
         "_uncollect_vars / _collect_vars chains of ComponentLevel1-4", "net re-resolution", "simulation passes"]
 STUB = ["design generator with replacement families", "spec rewriting that builds the from-scratch twin",
